@@ -82,6 +82,8 @@ def agree(case, impl, model):
             return False
         # residual of the implementation's own output
         A, B = mat(s1, e1), mat(s2, e2)
+        if len(t) > 3:
+            A = [[v / int(t[3][1:]) for v in row] for row in A]
         k = len(B[0])
         X = [[F(vals[i * k + j]) for j in range(k)] for i in range(len(A))]
         for i in range(len(A)):
@@ -214,6 +216,21 @@ def gen(seed, tier):
                     m[i][i] = rng.randint(20, 40)
                 ms.append(m)
             out.append(f"qr {arr([3, n, n], flat(ms[0]) + flat(ms[1]) + flat(ms[2]))}")
+    # decimal entries (every entry divided by 10, 7 or 3: none is a binary fraction): singular matrices whose computed
+    # determinant is a rounding residue rather than exactly zero must still be refused; regular ones are solved
+    for n in range(2, 6):
+        for kind in ("singular", "singular", "dominant", "random"):
+            for _ in range(6 if tier == "quick" else 60):
+                m = rand_mat(rng, n, kind)
+                if kind == "random" and abs(det_exact([[F(x) for x in r] for r in m])) < 1:
+                    continue
+                sc = rng.choice([10, 7, 3, 10])
+                k = rng.choice([0, 0, 2])
+                b = arr([n], [rng.randint(-9, 9) for _ in range(n)]) if k == 0 else arr([n, k], [rng.randint(-9, 9) for _ in range(n * k)])
+                out.append(f"solve {arr([n, n], flat(m))} {b} z{sc}")
+    out.append("solve a2x2:1,3,2,6 a2:1,1 z10")
+    out.append("solve a2x2:3,7,3,7 a2:1,2 z10")
+    out.append("solve a3x3:1,2,3,4,5,6,7,8,9 a3:1,2,3 z10")
     # entry checks: rank of a, squareness, extents below 2, row count of the right-hand side
     for a_, b_ in [("a1:0", "a1:0"), ("a3:1,2,3", "a3:1,2,3"), ("a1x1:5", "a1:5"), ("a2x3:1,2,3,4,5,6", "a2:1,2"),
                    ("a3x2:1,2,3,4,5,6", "a3:1,2,3"), ("a2x2:1,2,3,5", "a3:1,2,3"), ("a2x2:1,2,3,5", "a1:1"),
